@@ -5,6 +5,7 @@ import (
 	"fmt"
 	"net/url"
 	"sort"
+	"strings"
 )
 
 // NewURL builds a URL from a SimpleURL and a schema for validating and
@@ -128,7 +129,7 @@ func (u *URL) String() string {
 	// Path
 	path := "/"
 	for _, p := range u.Fragments {
-		path += p + "/"
+		path += url.PathEscape(p) + "/"
 	}
 
 	path = path[:len(path)-1]
@@ -147,9 +148,9 @@ func (u *URL) String() string {
 	for _, typ := range fields {
 		sort.Strings(u.Params.Fields[typ])
 
-		param := "fields%5B" + typ + "%5D="
+		param := "fields%5B" + escapeParam(typ) + "%5D="
 		for _, f := range u.Params.Fields[typ] {
-			param += f + "%2C"
+			param += escapeParam(f) + "%2C"
 		}
 
 		param = param[:len(param)-3]
@@ -166,10 +167,19 @@ func (u *URL) String() string {
 			panic(err)
 		}
 
-		param := "filter=" + string(mf)
+		param := "filter=" + escapeParam(string(mf))
 		urlParams = append(urlParams, param)
 	} else if u.Params.FilterLabel != "" {
-		urlParams = append(urlParams, "filter="+u.Params.FilterLabel)
+		// The label is read back as the content of a JSON string.
+		label, _ := json.Marshal(u.Params.FilterLabel)
+		label = label[1 : len(label)-1]
+
+		if label[0] == '{' {
+			// It would be taken for a JSON object.
+			label = append([]byte("\\u007b"), label[1:]...)
+		}
+
+		urlParams = append(urlParams, "filter="+escapeParam(string(label)))
 	}
 
 	// Pagination
@@ -177,14 +187,14 @@ func (u *URL) String() string {
 		if num, ok := u.Params.Page["number"]; ok {
 			urlParams = append(
 				urlParams,
-				"page%5Bnumber%5D="+fmt.Sprint(num),
+				"page%5Bnumber%5D="+escapeParam(fmt.Sprint(num)),
 			)
 		}
 
 		if size, ok := u.Params.Page["size"]; ok {
 			urlParams = append(
 				urlParams,
-				"page%5Bsize%5D="+fmt.Sprint(size),
+				"page%5Bsize%5D="+escapeParam(fmt.Sprint(size)),
 			)
 		}
 	}
@@ -193,7 +203,7 @@ func (u *URL) String() string {
 	if len(u.Params.SortingRules) > 0 {
 		param := "sort="
 		for _, attr := range u.Params.SortingRules {
-			param += attr + "%2C"
+			param += escapeParam(attr) + "%2C"
 		}
 
 		param = param[:len(param)-3]
@@ -209,6 +219,14 @@ func (u *URL) String() string {
 	params = params[:len(params)-1]
 
 	return path + params
+}
+
+// escapeParam escapes s so that it can be safely placed in the query of a URL,
+// as the name or the value of a parameter.
+//
+// Spaces are escaped as %20 (not +) so that UnescapedString can unescape them.
+func escapeParam(s string) string {
+	return strings.ReplaceAll(url.QueryEscape(s), "+", "%20")
 }
 
 // UnescapedString returns the same thing as String, but special characters are
